@@ -324,6 +324,25 @@ def handleCls (cls : String) (j : Json) : E Out := do
     let n ← req (fNat? j "n")
     let M : Coo CQ := imaginizer n
     pure { modes := [(1, M), (2, adj CQ.conj M)], doubled := true }
+  | "LinearEinsum" =>
+    -- {"subs":[["ij",[data…]],…], "x":"j…", "out":"i…", "sizes":[["i",2],…]}; validation as in the constructor
+    let sizes ← req ((field? j "sizes").bind (listOf? fun kv => do
+      let a ← getArr? kv
+      let k ← (a[0]?).bind getStr?
+      let n ← (a[1]?).bind getNat?
+      pure (k.toList.headD 'a', n)))
+    let ops ← req ((field? j "subs").bind (listOf? fun kv => do
+      let a ← getArr? kv
+      let k ← (a[0]?).bind getStr?
+      let d ← (a[1]?).bind cqList?
+      pure (k.toList, d)))
+    let xs ← req (fStr? j "xsub")
+    let os ← req (fStr? j "out")
+    let present := (ops.map (·.1)).flatten ++ xs.toList
+    if os.toList.any (fun c => !present.contains c) then throw "ValueError"
+    let letters := present.eraseDups
+    let sz := fun c => ((sizes.find? fun kv => kv.1 == c).map Prod.snd).getD 1
+    pure (twoModes (einsum letters sz ops xs.toList os.toList))
   | "Reject" => throw ((fStr? j "kind").getD "bad-args")
   | "NullOperator" =>
     let r ← req (fNat? j "rows")
